@@ -3,6 +3,9 @@ import ComposeVerif.Lemmas.Path
 import ComposeVerif.Gen.Tables
 import ComposeVerif.Gen.Schema
 import ComposeVerif.Model.SchemaPaths
+import ComposeVerif.Model.InterpTyped
+import ComposeVerif.Gen.Types
+import ComposeVerif.Gen.C08Facts
 /-!
 # C08 — interpolation touches only string values and is type-transparent
 
@@ -245,6 +248,96 @@ def schemaCompatible (c : Caster) (tys : List CV.Schema.Ty) : Bool :=
 theorem cast_rows_schema_compatible : ∀ row ∈ CV.Gen.castTable,
     schemaCompatible (Caster.ofName row.2) (CV.Schema.kindsAt CV.Gen.composeSchema row.1) = true := by decide
 
+/-! ## 6. every typed attribute is reachable by a variable: cast row or decode-time conversion -/
+
+/-- the typed leaves (bool / int / uint / float, Duration, UnitBytes, NanoCPUs, DeviceCount) of `types.Project`, from the
+    regenerated struct descriptors -/
+def projectLeaves : List TypedLeaf := typedLeaves CV.Gen.structs CV.Gen.namedTypes CV.Gen.customMethods "Project"
+
+/-- the scalar short form of a self-decoding struct is stored in a pseudo field (`UlimitsConfig.Single`): its row is the
+    row of the struct's own path -/
+def TypedLeaf.rowPath (l : TypedLeaf) : List String :=
+  if l.path.getLast? = some "single" then l.path.dropLast else l.path
+
+/-- struct fields that are not attributes of the Compose schema at all (the plain literal is rejected there:
+    "Additional property … is not allowed"; the oracle `c08typed` asserts exactly that on the real loader for these
+    paths).  `Schema.kindsAt` is not kernel-evaluable on undeclared keys (`String.startsWith`), hence the explicit list. -/
+def notInSchema : List (List String) := [
+  ["services", "*", "build", "ulimits", "*", "single"],
+  ["services", "*", "ulimits", "*", "single"],
+  ["services", "*", "deploy", "resources", "limits", "devices", "[]", "count"],
+  ["services", "*", "deploy", "resources", "limits", "generic_resources", "[]", "discrete_resource_spec", "value"],
+  ["services", "*", "deploy", "resources", "reservations", "pids"]]
+
+/-- **no typed path is missing from both mechanisms**: wherever the regenerated schema admits a string at a typed leaf,
+    the string is converted — by a row of the cast table, by the `cast` hook (its regenerated kind list), or by the
+    type's own `DecodeMapstructure`; fields of a self-decoding struct (ulimits) need a row -/
+theorem typed_paths_covered :
+    (projectLeaves.filter (fun l => !notInSchema.contains l.path)).all (fun l =>
+      !(CV.Schema.kindsAt CV.Gen.composeSchema l.path).contains .string ||
+      CV.Gen.castTable.any (fun r => r.1 == l.rowPath) || l.decodeConverts CV.Gen.c08_castHook) = true := by decide
+
+/-- the short forms: `ulimits.<name>: <scalar>` has a row wherever the struct is self-decoding -/
+theorem short_forms_covered :
+    (projectLeaves.filter (fun l => l.path.getLast? = some "single")).all (fun l =>
+      CV.Gen.castTable.any (fun r => r.1 == l.rowPath)) = true := by decide
+
+/-- the decode-time hook converts exactly Bool / Int / Int64 / Float32 / Float64 targets, each with a caster of that kind -/
+theorem cast_hook_known : ∀ r ∈ CV.Gen.c08_castHook,
+    (Caster.ofName r.2).kind = (match r.1 with
+      | "Bool" => some NumKind.bool | "Int" => some .int | "Int64" => some .int
+      | "Float32" => some .float | "Float64" => some .float | _ => none) := by decide
+
+/-- the two mechanisms never convert the same attribute to different kinds: where a cast row sits on a primitive leaf
+    the hook also handles, both casters produce the same kind of value (and the integer / boolean casters are the very
+    same functions, `toInt_eq_toInt64`) -/
+theorem cast_hook_agrees_with_table :
+    projectLeaves.all (fun l => match l.conv with
+      | .hook k => CV.Gen.castTable.all (fun r => r.1 != l.path ||
+          (match CV.Gen.c08_castHook.find? (fun h => h.1 == k) with
+           | some h => (Caster.ofName h.2).kind == (Caster.ofName r.2).kind
+           | none => true))
+      | _ => true) = true := by decide
+
+/-- the hook, as a function: a string at a target kind it knows is converted by the row-independent caster; any other
+    kind (e.g. `Uint32`) is left to mapstructure, which rejects a string for a numeric target -/
+theorem decodeCast_spec (fp : FloatParser) (s : String) :
+    decodeCast CV.Gen.c08_castHook fp "Bool" s = some ((parseBool s).map Val.bool) ∧
+    decodeCast CV.Gen.c08_castHook fp "Int" s = some ((parseInt s).map Val.int) ∧
+    decodeCast CV.Gen.c08_castHook fp "Int64" s = some ((parseInt s).map Val.int) ∧
+    decodeCast CV.Gen.c08_castHook fp "Uint16" s = none ∧ decodeCast CV.Gen.c08_castHook fp "Uint32" s = none ∧
+    decodeCast CV.Gen.c08_castHook fp "Uint64" s = none ∧ decodeCast CV.Gen.c08_castHook fp "String" s = none := by
+  refine ⟨rfl, rfl, rfl, rfl, rfl, rfl, rfl⟩
+
+/-- interpolation off ≡ interpolation on at a cast row whose leaf the hook also converts with the same caster: the
+    decode-time value of a string is `castOnly` of it -/
+theorem decode_time_is_castOnly (c : Cfg) (p : TPath) (name kind : String) (s : String) (v : Val)
+    (hrow : firstMatch c.table p = some name) (hhook : (kind, name) ∈ CV.Gen.c08_castHook)
+    (hd : decodeCast CV.Gen.c08_castHook c.fp kind s = some (some v)) : castOnly c p s = .ok v := by
+  have hk : decodeCast CV.Gen.c08_castHook c.fp kind s = some ((Caster.ofName name).apply c.fp s) := by
+    simp only [CV.Gen.c08_castHook, List.mem_cons, Prod.mk.injEq, List.mem_nil_iff, or_false] at hhook
+    rcases hhook with ⟨rfl, rfl⟩ | ⟨rfl, rfl⟩ | ⟨rfl, rfl⟩ | ⟨rfl, rfl⟩ | ⟨rfl, rfl⟩ <;> rfl
+  rw [hk] at hd
+  simp only [Option.some.injEq] at hd
+  unfold castOnly
+  rw [hrow]
+  simp only [hd]
+
+/-- the casters still go through the modelled parsers (`parseYAMLInt` / `parseYAMLFloat` of loader/interpolate.go) -/
+theorem casters_are_modelled :
+    CV.Gen.c08_casterCalls = [
+      ("toInt", ["int", "int64", "parseYAMLInt", "strconv.Atoi"]),
+      ("toInt64", ["parseYAMLInt", "strconv.ParseInt"]),
+      ("toFloat", ["parseYAMLFloat"]),
+      ("toFloat32", ["float32", "parseYAMLFloat"]),
+      ("toBoolean", ["fmt.Errorf", "logrus.Warnf", "strings.ToLower"])] := by decide
+
+/-- the per-file option sets (files reached through `extends` / `include`) inherit the interpolation switch and the
+    interpolation options -/
+theorem clone_keeps_interpolation :
+    "SkipInterpolation=o.SkipInterpolation" ∈ CV.Gen.c08_cloneCopies ∧ "Interpolate=o.Interpolate" ∈ CV.Gen.c08_cloneCopies := by
+  decide
+
 /-! ## non-vacuity -/
 
 private def cfg0 : Cfg :=
@@ -293,6 +386,10 @@ example : yamlInt "0440" = some 288 ∧ yamlInt "-0b11" = some (-3) ∧ yamlInt 
 /-- `cast_error_names_path`, `cast_failure_is_error`: an error run whose error carries the concrete path -/
 example : interp cfg0 ["services", "a", "scale"] (.str "${V}") = .err (.cast (pathString ["services", "a", "scale"])) :=
   cast_failure_is_error cfg0 _ _ "yes".toList "toInt" (by decide) (by decide) (by rfl)
+
+/-- `typed_paths_covered` is about 93 leaves, 88 of them in the schema; `decode_time_is_castOnly` has instances -/
+example : projectLeaves.length = 93 ∧ (projectLeaves.filter (fun l => !notInSchema.contains l.path)).length = 88 := by decide
+example : ("Bool", "toBoolean") ∈ CV.Gen.c08_castHook ∧ firstMatch cfg0.table ["services", "a", "init"] = some "toBoolean" := by decide
 
 /-- `cast_lookup_perm`: the reversed table is a permutation -/
 example : (CV.Gen.castTable.reverse).Perm CV.Gen.castTable := List.reverse_perm _
